@@ -43,6 +43,15 @@ def check_class(res, index, cls):
                 f"indexed / broadcast as a batch (`{raw[0].src()[:60]}`)")
     else:
         res.ok("IN-1", label)
+    # ---------------------------------------------------------------- DTYPE-1 integer query points are documented input
+    ints = [e for e in ev if e.type == "int-inplace"]
+    if ints:
+        e = ints[0]
+        res.bad("DTYPE-1", f"{label}:{e.op}:caller-dtype", e.where(), f"{label}: `{e.src()[:60]}` writes floating-point values into an array that has the "
+                "dtype of the caller's points (np.asarray / atleast_2d without dtype): integer points such as [[0, 0, 0]] are truncated or numpy "
+                "refuses the cast")
+    else:
+        res.ok("DTYPE-1", label, nontrivial=False)
     # ---------------------------------------------------------------- IN-2 batch axis survives
     bad2 = False
     nred = 0
